@@ -611,6 +611,8 @@ func allCases(thorough bool) []caseSpec {
 	return out
 }
 
+const maxReportedKeys = 40
+
 func TestCheck(t *testing.T) {
 	r := runner.Start("C20", "exploration")
 	deadline := r.Deadline(90*time.Second, 10*time.Minute)
@@ -701,6 +703,7 @@ func TestCheck(t *testing.T) {
 		effectSeen  = map[string]int{}
 		allowedRuns = map[string]int{}
 		relational  []finding
+		reported    = map[string]bool{}
 		done        int
 		stopped     bool
 		debug       = os.Getenv("VERIF_C20_DEBUG")
@@ -790,6 +793,23 @@ func TestCheck(t *testing.T) {
 				mu.Unlock()
 				for _, f := range cr.Findings {
 					f := f
+					// one report per distinct failure class; the runner keeps 20 replay files, the harness stops
+					// re-checking after maxReportedKeys distinct keys (the rest is only counted)
+					mu.Lock()
+					dup := reported[f.Key]
+					over := !dup && len(reported) >= maxReportedKeys
+					if !dup && !over {
+						reported[f.Key] = true
+					}
+					mu.Unlock()
+					if dup {
+						r.Add("violating_cases_same_key", 1)
+						continue
+					}
+					if over {
+						r.Add("violation_keys_not_reported", 1)
+						continue
+					}
 					r.Violation(f.Key, f.Msg, spec, func() bool {
 						again := runCase(w, spec)
 						for _, g := range again.Findings {
